@@ -136,7 +136,7 @@ class C10:
     variants = ("asan",)
     rule = ("complete product of %d option-state recipes (pristine, set by parse, set by API, emptied, annotated pristine, "
             "annotated set, appended, single element) x %d refusing calls (cfg_setmulti with the unconvertible element at every "
-            "position of 1-4 values for int/float/bool scalars and lists incl. nested ones, zero values, refused parse "
+            "position of 1-4 values for int/float/bool scalars (ordinary and CFG_SIMPLE_*) and lists incl. nested ones, zero values, refused parse "
             "callback; by-name setters vetoed by the validation callback at index 0/last/new; wrong type; index on a "
             "scalar; list calls on non-lists; unknown names; cfg_addtsec existing title / non-section; cfg_rmtsec / "
             "cfg_rmnsec / cfg_rmsec of non-existing sections; cfg_setopt with unconvertible or empty text), with "
